@@ -105,6 +105,14 @@ func runC06(c *Ctx) {
 		}
 		evalHistoryC06(c, sp)
 	}
+	// directed: the peer rejects with every kind of reason code (the four defined ones, 0, reserved 5..127, vendor
+	// 128..255); the caller must get a RejectError carrying exactly that code, long before T3 (after seeded C06b-2)
+	for k, reason := range []byte{1, 2, 3, 4, 0, 5, 6, 64, 127, 128, 200, 255} {
+		sp := &rSpec{Name: fmt.Sprintf("directed-reject-reason-%d", reason), Seed: uint64(300 + k), Handlers: 1, T3: 1500 * time.Millisecond,
+			Plans: []rSenderPlan{{Kind: "s", Peer: pkReject, PeerS: pkNames[pkReject], Arg: reason, Stream: 1, Fn: 1},
+				{Kind: "s", Peer: pkReply, PeerS: "reply", Stream: 2, Fn: 3, Delay: 20}}}
+		evalHistoryC06(c, sp)
+	}
 	// slow writes: T3 counts from the moment the primary was written, not from the call / the registration
 	c06SlowWrites(c)
 	// directed: one sender per peer behaviour
@@ -289,6 +297,32 @@ func oracleC06(c *Ctx, sp *rSpec, h *rHistory, replay map[string]any) string {
 				c.Violate("property", "t3-without-primary", fmt.Sprintf("call %d timed out but its primary never reached the peer", i), replay)
 			} else if el := cl.EndT.Sub(cl.StartT); el < sp.T3*9/10 {
 				c.Violate("property", "t3-early", fmt.Sprintf("call %d returned the T3 error after %v (T3 = %v)", i, el, sp.T3), replay)
+			}
+			// completeness: the T3 error is only for a transaction the peer did NOT answer. An answer (its own
+			// secondary, or a Reject.req with ANY reason code — reserved and vendor codes included) that the library
+			// had finished reading well before the call gave up must have completed the call instead
+			// (after seeded change C06b-2: Reject.req with a reserved reason silently discarded).
+			if onWire {
+				margin := sp.T3 / 3
+				if margin < 150*time.Millisecond {
+					margin = 150 * time.Millisecond
+				}
+				for _, f := range out {
+					if f.SB != p.sb || f.PType != 0 || !f.WriteOK || f.EndT == 0 || f.Stamp <= p.f.Stamp || f.Gen != p.f.Gen {
+						continue
+					}
+					isReject := f.SType == 7
+					isOwnSecondary := f.IsData() && !f.W() && f.Stream() == p.f.Stream() && f.Fn() == p.f.Fn()+1 && f.Session == p.f.Session
+					if (isReject || isOwnSecondary) && f.EndT < cl.EndT.UnixNano()-int64(margin) {
+						what := "timeout-despite-reply"
+						if isReject {
+							what = "timeout-despite-reject"
+						}
+						c.Violate("property", what, fmt.Sprintf("call %d (system bytes %d) returned the T3 error although the peer's answer (SType %d, byte3 %d) had been read by the library %v earlier",
+							i, p.sb, f.SType, f.B3, time.Duration(cl.EndT.UnixNano()-f.EndT)), replay)
+						break
+					}
+				}
 			}
 		case "ctx":
 			if !cl.Cancel {
